@@ -32,6 +32,10 @@ fn handle(line: &str, oracle: bool) -> String {
         (["ITER", h], true) => unhex(h).map(|d| l1::oracle_iter(&d)).unwrap_or_else(bad),
         (["FEED", h], false) => chunks(h).map(|c| l1::op_feed(&c)).unwrap_or_else(bad),
         (["FEED", h], true) => chunks(h).map(|c| l1::oracle_feed(&c)).unwrap_or_else(bad),
+        (["SCHED", h], o) => match l1::parse_sched(h) {
+            Some(ops) => if o { l1::oracle_sched(&ops) } else { l1::op_sched(&ops) },
+            None => bad(),
+        },
         (["FLIP", h, b], false) => match (unhex(h), bits(b)) {
             (Some(d), Some(b)) => l1::op_flip(&d, &b),
             _ => bad(),
